@@ -352,6 +352,10 @@ type classical struct {
 	priv      key.Key
 	verifier  tink.Verifier // tink's own stand-alone verifier of the component key
 	stdVerify func(msg, sig []byte) bool
+	// ECDSA components only: the curve, the private scalar and the message hash, for signatures with a chosen nonce
+	curve elliptic.Curve
+	d     *big.Int
+	hf    crypto.Hash
 }
 
 func mustHex(s string) []byte {
@@ -435,6 +439,7 @@ func newClassical(alg compositemldsa.ClassicalAlgorithm) (*classical, error) {
 		if err != nil {
 			return nil, err
 		}
+		c.curve, c.d, c.hf = curve, new(big.Int).SetBytes(d), hf
 		c.stdVerify = func(msg, sig []byte) bool {
 			hh := hf.New()
 			hh.Write(msg)
@@ -698,4 +703,111 @@ func sectionComposite(x *h.X) {
 			judge(bp, m, "prefix altered")
 		}
 	}
+	// DER-encoded classical components of every legal LENGTH: valid ECDSA signatures (chosen nonce) whose r, whose s,
+	// or both are integers at least one byte shorter than the field size; a verifier must take the classical component
+	// as "the rest", whatever its length.
+	if cl.curve != nil {
+		for _, sd := range shortDERFor(pr, cl, k) {
+			if !cl.stdVerify(messagePrime(pr.label, sd.msg), sd.ecdsa) {
+				continue // the crafted component is not a valid ECDSA signature: harness problem, nothing to judge
+			}
+			judge(bytes.Join([][]byte{prefix, sd.mldsa, sd.ecdsa}, nil), sd.msg, fmt.Sprintf("valid classical component with a short DER encoding (%s, %d bytes)", sd.shape, len(sd.ecdsa)))
+			t := bytes.Join([][]byte{prefix, sd.mldsa, sd.ecdsa}, nil)
+			t[len(t)-1] ^= 1
+			judge(t, sd.msg, fmt.Sprintf("short DER classical component (%s) with its last bit flipped", sd.shape))
+		}
+	}
+}
+
+type shortDER struct {
+	shape string
+	msg   []byte
+	mldsa []byte
+	ecdsa []byte
+}
+
+var shortDERCache sync.Map
+
+// shortDERFor crafts, per pairing, composite components for messages m_j such that the ECDSA signature over M'(m_j)
+// made with a searched nonce has a short r, a short s, or both (bit length <= 8*(size-1)-1; for P-521 <= 8*(size-2)-1,
+// whose top byte holds one bit only). Deterministic: nonces 1,2,3,... and messages "short-der-<j>".
+func shortDERFor(pr pairing, cl *classical, k *kp) []shortDER {
+	if v, ok := shortDERCache.Load(pr.name); ok {
+		return v.([]shortDER)
+	}
+	cp := cl.curve.Params()
+	n := cp.N
+	size := (cp.BitSize + 7) / 8
+	target := 8*(size-1) - 1
+	if cp.BitSize%8 != 0 {
+		target = 8*(size-2) - 1
+	}
+	hashOf := func(m []byte) *big.Int {
+		hh := cl.hf.New()
+		hh.Write(messagePrime(pr.label, m))
+		z := new(big.Int).SetBytes(hh.Sum(nil))
+		if ex := 8*cl.hf.Size() - n.BitLen(); ex > 0 {
+			z.Rsh(z, uint(ex))
+		}
+		return z
+	}
+	sign := func(kk, r *big.Int, m []byte) *big.Int {
+		sv := new(big.Int).Mul(r, cl.d)
+		sv.Add(sv, hashOf(m))
+		sv.Mul(sv, new(big.Int).ModInverse(kk, n))
+		return sv.Mod(sv, n)
+	}
+	der := func(r, sv *big.Int) []byte {
+		enc := func(v *big.Int) []byte {
+			b := v.Bytes()
+			if len(b) == 0 || b[0]&0x80 != 0 {
+				b = append([]byte{0}, b...)
+			}
+			return append([]byte{2, byte(len(b))}, b...)
+		}
+		body := append(enc(r), enc(sv)...)
+		if len(body) < 128 {
+			return append([]byte{0x30, byte(len(body))}, body...)
+		}
+		return append([]byte{0x30, 0x81, byte(len(body))}, body...)
+	}
+	var shortK, longK, shortR, longR *big.Int
+	for i := int64(2); i < 200000 && (shortK == nil || longK == nil); i++ {
+		kk := big.NewInt(i)
+		xx, _ := cl.curve.ScalarBaseMult(kk.Bytes())
+		r := new(big.Int).Mod(xx, n)
+		if r.Sign() == 0 {
+			continue
+		}
+		if r.BitLen() <= target && shortK == nil {
+			shortK, shortR = kk, r
+		}
+		if r.BitLen() == cp.BitSize && longK == nil {
+			longK, longR = kk, r
+		}
+	}
+	var out []shortDER
+	if shortK != nil && longK != nil {
+		for _, sh := range []struct {
+			name   string
+			kk, r  *big.Int
+			shortS bool
+		}{{"r short", shortK, shortR, false}, {"s short", longK, longR, true}, {"r and s short", shortK, shortR, true}} {
+			for j := 0; j < 200000; j++ {
+				m := []byte(fmt.Sprintf("short-der-%s-%d", sh.name, j))
+				sv := sign(sh.kk, sh.r, m)
+				if sv.Sign() == 0 || (sv.BitLen() <= target) != sh.shortS {
+					continue
+				}
+				ml, err := mldsaref.SignDeterministic(k.std, messagePrime(pr.label, m), pr.label)
+				if err != nil {
+					break
+				}
+				out = append(out, shortDER{shape: sh.name, msg: m, mldsa: ml, ecdsa: der(sh.r, sv)})
+				break
+			}
+		}
+	}
+	v, _ := shortDERCache.LoadOrStore(pr.name, out)
+	return v.([]shortDER)
 }
